@@ -4,8 +4,9 @@
 EXTENDS MC_PageStore, SequencesExt
 
 (* ---------------- behaviour generation (history in the state) -------- *)
-VARIABLE hist
-gvars == <<cur, com, memo, hist>>
+VARIABLE hist,
+         site   \* index into Sites of the namespace table in force (multi-site generation), else 0
+gvars == <<cur, com, memo, hist, site>>
 
 \* Expected lookup tables per the *reference*, emitted compactly: the argument
 \* universe once (ArgSeq), then per state the distinct results and, for every
@@ -22,7 +23,7 @@ Table(S) ==
 ComTable == IF com = cur THEN [same |-> TRUE, results |-> <<>>, get |-> <<>>, res |-> <<>>]
             ELSE [same |-> FALSE] @@ Table(com)
 
-GInit == PSInit /\ hist = <<>>
+GInit == PSInit /\ hist = <<>> /\ site = 0
 GAdd ==
   \E ns \in Namespaces, b \in Bases :
     \E t \in AddSpellings(ns, b) :
@@ -37,20 +38,61 @@ GAdd ==
                                     body |-> ""])
 GCommit == Commit /\ hist' = Append(hist, [op |-> "commit", title |-> <<>>, ns |-> 0,
                                           redirect |-> NoRedirect, body |-> ""])
-GNext == Len(hist) < MaxLen /\ (GAdd \/ GCommit)
+GNext == Len(hist) < MaxLen /\ (GAdd \/ GCommit) /\ UNCHANGED site
 \* (memo is driven by the replay harness's probing schedule, not by the generator)
 GSpec == GInit /\ [][GNext]_gvars
 
 Emit == /\ (hist = <<>> => PrintT(<<"ARGS", ToJson(ArgSeq)>>))
         /\ PrintT(<<"CASE", ToJson([hist |-> hist, cur |-> Table(cur), com |-> ComTable])>>)
 GenInv == Emit
-\* S_ configurations (namespace table of a site, MC_PageStore): the derived atom tables and the
-\* model-level verdicts on the table are printed once, for the harness to cross-check its transport
-SiteInv == hist = <<>> =>
-  PrintT(<<"SITE", ToJson([wellformed |-> TableWellFormed,
-                           code_meets_statement |-> (S_CodePfxNs = PfxNs),
-                           namespaces |-> SetToSeq(Namespaces),
-                           pfxns |-> PfxNs, canon |-> CanonPfx])>>)
+(* ---------------- one run over the namespace tables of many sites ---------------- *)
+(* Gen_PageStore_M: the initial state chooses a site of the file; the atom tables TLC   *)
+(* derives from its namespace table (PageStore.tla, Ns.. operators), the universe and the  *)
+(* model-level verdicts on the table are computed once per site (M_View) and printed    *)
+(* with the empty history; histories are bounded by the site's own maxlen.              *)
+M_ViewOf(s) ==
+  LET tab == {s.nstab[i] : i \in 1..Len(s.nstab)}
+      nss == {s.namespaces[i] : i \in 1..Len(s.namespaces)}
+      pfxns == NsRefPfxNs(tab, s.fold)
+      canon == NsCanonPfx(tab)
+  IN [tab |-> tab, nss |-> nss, pfxns |-> pfxns, canon |-> canon,
+      args |-> SetToSeq(SiteArgSet(nss, pfxns, canon)),
+      wellformed |-> (NsUnambiguous(tab, s.fold) /\ nss \subseteq {e.id : e \in tab}),
+      code_meets_statement |-> (NsCodePfxNs(tab, s.fold, Dev) = pfxns)]
+M_View == TLCEval([i \in 1..Len(Sites) |-> M_ViewOf(Sites[i])])
+
+MTable(S, v) ==
+  LET rs == ResSeq(S) IN
+  [results |-> rs,
+   get |-> [i \in 1..Len(v.args) |-> IdxOf(rs, RefGetP(S, v.args[i].title, v.args[i].ns, v.args[i].nr, v.pfxns, v.canon))],
+   res |-> [i \in 1..Len(v.args) |-> IdxOf(rs, RefResolveP(S, v.args[i].title, v.args[i].ns, v.pfxns, v.canon))]]
+MComTable(v) == IF com = cur THEN [same |-> TRUE, results |-> <<>>, get |-> <<>>, res |-> <<>>]
+                ELSE [same |-> FALSE] @@ MTable(com, v)
+
+MInit == PSInit /\ hist = <<>> /\ site \in 1..Len(Sites)
+MAdd(v) ==
+  \E ns \in v.nss, b \in Bases :
+    \E t \in AddSpellingsP(ns, b, v.canon) :
+      \/ \E body \in Bodies :
+           /\ AddPageP(t, ns, NoRedirect, body, "wikitext", v.canon)
+           /\ hist' = Append(hist, [op |-> "add", title |-> t, ns |-> ns, redirect |-> NoRedirect,
+                                    body |-> body])
+      \/ \E tgt \in SiteRedirectTargets(ns, v.tab, v.canon) :
+           /\ SiteIsRedirectOf(tgt, ns, b, v.tab, v.canon)
+           /\ AddPageP(t, ns, tgt, "", "wikitext", v.canon)
+           /\ hist' = Append(hist, [op |-> "add", title |-> t, ns |-> ns, redirect |-> tgt,
+                                    body |-> ""])
+MNext == Len(hist) < Sites[site].maxlen /\ (MAdd(M_View[site]) \/ GCommit) /\ UNCHANGED site
+MSpec == MInit /\ [][MNext]_gvars
+
+MEmit ==
+  LET v == M_View[site] IN
+  /\ (hist = <<>> =>
+        PrintT(<<"SITE", ToJson([site |-> site, lang |-> Sites[site].lang, args |-> v.args,
+                                 wellformed |-> v.wellformed, code_meets_statement |-> v.code_meets_statement,
+                                 namespaces |-> SetToSeq(v.nss), pfxns |-> v.pfxns, canon |-> v.canon])>>))
+  /\ PrintT(<<"CASE", ToJson([site |-> site, hist |-> hist, cur |-> MTable(cur, v), com |-> MComTable(v)])>>)
+MGenInv == MEmit
 
 (* simulation: TLC evaluates invariants on every candidate successor, so only
    the final state of a walk prints, with the tables of all its prefixes
